@@ -189,7 +189,7 @@ def u_update_frame(I, both_uq=False):
                                                                  and other_contents[('gid', 1)]['thermochem'] is theirs_a and len(other_contents) == 2)),
                 ('uncertainty data taken over only when this library has none', z3.BoolVal(me.fields['uq_contents'] is other.fields['uq_contents']))]
     if both_uq:
-        check_outcome(I, out, raises={'ValueError': z3.BoolVal(True)})
+        check_outcome(I, out, raises={'*': z3.BoolVal(True)})
         ctx.oblige('the uncertainty data of this library are kept when the other library brings its own (the merge is refused)', z3.BoolVal(me.fields['uq_contents'] is my_uq and my_uq == {'dof': 5}))
         return {'inputs': {}}
     check_outcome(I, out, raises={}, returns=posts)
